@@ -85,8 +85,14 @@ def optNatJ : Option Nat → Json
   | some n => toJson n
   | none => Json.null
 
-def obs (w : World) : Json :=
+/-- does the entry point raise (the transaction is rolled back)? -/
+def raises (w : World) : Event → Bool
+  | .stop a s msg => s != .CANCELLED && (stopOne w a s msg).isNone
+  | _ => false
+
+def obs (w : World) (raised : Bool) : Json :=
   Json.mkObj [
+    ("raised", Json.bool raised),
     ("execs", Json.arr (w.execs.map fun e => Json.arr #[toJson e.defn, optNatJ e.parent, toJson e.index,
         Json.str e.state.toString, Json.str (infoStr e.info), Json.str (outStr e.out), Json.bool e.accepted,
         toJson e.sent, toJson e.got]).toArray),
@@ -106,7 +112,7 @@ def handle (fn : String) (a : Json) : Option (Except String Json) :=
       let evs ← evsJ.toList.mapM eventOfJson
       let (_, out) := evs.foldl (fun (p : World × Array Json) e =>
         let w' := step c p.1 e
-        (w', p.2.push (obs w'))) (init, #[])
+        (w', p.2.push (obs w' (raises p.1 e)))) (init, #[])
       pure (Json.arr out)
   | _ => none
 
